@@ -8,7 +8,7 @@ from .common import CLIENTS, REAL_NET, STUB_NET, ASSUME_NET, viol
 ID = "C06"
 ENGINE = "netsim"
 LEVEL = "exploration"
-RUNS = {"quick": 8000, "thorough": 300000}
+RUNS = {"quick": 24000, "thorough": 600000}
 BUDGET_S = {"quick": 45, "thorough": 480}
 BATCH = 40
 RULE = ("loop-back run = client type x 1-12 encodable messages (all 262 encodable definitions, codec fix-points only, "
